@@ -103,6 +103,8 @@ def observe(text):
         e = out[1].expression
         if isinstance(e, expressions.Constant):
             return ("val", kind_of(e), lc.canon_value(e.value, text.strip(" \t\r\n")))
+        if isinstance(e, expressions.GetContextValue) and type(e.path) is expressions.Constant:
+            return ("var", lc.canon_value(e.path.value, ""))
         return ("other", "not a constant")
     if out[0] == "lex":
         toks, end = lc.run_lexer(text)
@@ -117,6 +119,8 @@ def observe(text):
 def obs_term(o):
     if o[0] == "val":
         return gal.app("LVal", gal.s(o[1]), lc.val_term(o[2]))
+    if o[0] == "var":
+        return gal.app("LVar", lc.val_term(o[1]))
     return {"lexerr": "LLexErr", "foreign": "LForeign"}.get(o[0], "LOther")
 
 
@@ -191,6 +195,11 @@ def literal_texts(run):
         add("escape-combo", t)
     for t, _ in mixed_literals(run, rng):
         add("mixed", t)
+    for t in variable_texts(run, rng):
+        add("variable", t)
+    for fam in near_duplicate_families():
+        for t, _ in fam:
+            add("near-duplicate", t)
     # integers
     for k in [1, 2, 3, 5, 10, 19, 20, 39, 100, 1000, 4000, 4299, 4300, 4301, 5000]:
         for _ in range(run.n(4 if k < 4000 else 2, 30 if k < 4000 else 8)):
@@ -282,6 +291,47 @@ def mixed_literals(run, rng):
         lit(pieces, k)
         k += 1
     return out
+
+
+def variable_texts(run, rng):
+    """`$` followed by word characters of every kind: the variable's name is that very text."""
+    nums = c03.numeric_code_points()
+    pick = nums if not run.quick else nums[::9] + rng.sample(nums, 60)
+    out = ["$", "$0", "$00", "$01", "$007", "$1", "$10", "$0010", "$x", "$x1", "$01a", "$_", "$_1", "$é", "$١", "$٠١", "$1٣", "$²",
+           " $01 ", "$" + "0" * 50 + "1", "$" + "9" * 4301]
+    for cp in pick:
+        c = chr(cp)
+        out += ["$" + c, "$0" + c, "$" + c + c, "$" + c + "0", "$a" + c]
+    for _ in range(run.n(150, 3000)):
+        out.append("$" + "".join(rng.choice("0123456789٠١٢٣०१９𝟗_aZé") for _ in range(rng.randrange(1, 8))))
+    return out
+
+
+# families of literal texts that differ only in details a careless normalisation could erase (white space inside /
+# outside the quotes, tab/newline/space, letter case, quote style, escape vs raw, leading zeros): (text, value)
+def near_duplicate_families():
+    fams = []
+    for variants in (["a b", "a  b", "a\tb", "a\nb", "a \tb", "a\u00a0b", "a\u2003b", "ab"],
+                     [" ", "  ", "\t", "\n", "", " \n ", "\r"],
+                     [" x ", "  x  ", "x", " x", "x ", "\tx\t"],
+                     ["Ab c", "ab c", "AB C", "ab  c"],
+                     ["1 + 2", "1+2", "1  +  2", "1 +2"]):
+        fam = []
+        for v in variants:
+            for pad in ("", " ", "\n", "  "):
+                fam.append((pad + spell("'", v) + pad, v))
+                fam.append((pad + spell('"', v), v))
+                fam.append((spell_verbatim(v) + pad, v))
+        # the escaped spelling of the same white space is yet another text for the same value
+        fam.append(("'a\\tb'", "a\tb"))
+        fam.append(("'a\\x20b'", "a b"))
+        fam.append(("'a\\u0020\\u0020b'", "a  b"))
+        fams.append(fam)
+    fams.append([("7", 7), ("007", 7), (" 7", 7), ("7 ", 7), ("7.0", 7.0), ("7.00", 7.0), ("07.0", 7.0), ("'7'", "7"), ("' 7'", " 7"),
+                 ("true", True), (" true", True), ("'true'", "true"), ("`true`", "true"), ("True", "True"), ("null", None),
+                 ("Null", "Null"), ("foo", "foo"), ("Foo", "Foo"), (" foo ", "foo"), ("'foo'", "foo"), ("' foo '", " foo "),
+                 ("'f oo'", "f oo"), ("'f  oo'", "f  oo"), ("\"f\too\"", "f\too")])
+    return fams
 
 
 BIASED = ["\\", "\\", "'", '"', "`", "\n", "\\n", "\\x41", "\\u", "\\N{", "}", "a", "z", " ", "\t", "0", "7", "\x00",
@@ -502,8 +552,118 @@ def oracle(run, deep):
                      {"input": lc.compress(w), "input_repr": w, "observed": [str(x) for x in o], "required": [str(x) for x in want],
                       "theorems": ["C16_keywords"]})
     run.note("oracle: %d values round-tripped in three quote styles" % nchecked)
+    variable_names(run, rng)
     overlapping_literals(run)
+    eval_route_oracle(run, deep)
     multi_engine_oracle(run, deep)
+
+
+# ---------------------------------------------------------------- variable names
+def variable_names(run, rng):
+    """`$name` refers to the variable whose name is exactly the text written (no folding of leading zeros, digits of
+    other scripts, case ...)."""
+    reported = False
+    for t in dict.fromkeys(variable_texts(run, rng)):
+        o = observe(t)
+        want = ("var", ("text", t.strip(" ")))
+        run.count("oracle:variable:" + ("ok" if o == want else "fail"))
+        if o != want and not reported:
+            reported = True
+            run.fail("violation", "a variable reference does not name the variable it spells",
+                     {"input": lc.compress(t), "input_repr": lc.printable(t), "observed": [str(x)[:80] for x in o],
+                      "required": "GetContextValue of the constant %s" % lc.printable(t.strip(" ")), "theorems": ["C16_variable_name"]})
+
+
+# ---------------------------------------------------------------- the yaql.eval() route over histories
+def run_eval_history(texts, timeout=120):
+    """yaql.eval(t) for every t of the history, in order, in ONE fresh interpreter (the route has a process-wide
+    expression cache).  Returns the canonical results."""
+    import subprocess
+    import sys
+    script = os.path.join(HERE, "harness", "evalroute.py")
+    p = subprocess.run([sys.executable, "-W", "ignore", script], input=json.dumps({"texts": [[ord(c) for c in t] for t in texts]}),
+                       capture_output=True, text=True, timeout=timeout)
+    if p.returncode != 0:
+        return [["raised", "harness process failed: " + p.stderr[-300:]]] * len(texts)
+    return json.loads(p.stdout)
+
+
+def canon_expected(v):
+    if v is True or v is False:
+        return ["bool", v]
+    if v is None:
+        return ["null"]
+    if isinstance(v, str):
+        return ["str", [ord(c) for c in v]]
+    if isinstance(v, int):
+        return ["int", str(v)]
+    return ["float", v.hex()]
+
+
+def eval_route_oracle(run, deep):
+    """Every call of yaql.eval(text) gives the value that very text denotes, whatever near-duplicate texts the process
+    evaluated before: histories of literal texts differing only in white space inside/outside the quotes, case, quote
+    style, escape vs raw; each family in a seeded order and in the reverse order, each order in a fresh interpreter."""
+    import concurrent.futures
+    rng = run.rng
+    hist = []
+    for fam in near_duplicate_families():
+        fam = list(dict(fam).items())
+        for _ in range(run.n(1, 6) + (2 if deep else 0)):
+            o = fam[:]
+            rng.shuffle(o)
+            hist.append(o)
+            hist.append(list(reversed(o)))
+    # mixed histories over all families, and random values spelled with random padding
+    allt = [x for fam in near_duplicate_families() for x in dict(fam).items()]
+    for _ in range(run.n(2, 12)):
+        o = rng.sample(allt, min(len(allt), 120))
+        hist += [o, list(reversed(o))]
+    for _ in range(run.n(2, 20)):
+        o = []
+        for _ in range(60):
+            v = "".join(rng.choice(["a", "b", " ", "  ", "\t", "\n", "A", "x"]) for _ in range(rng.randrange(0, 6)))
+            pad = rng.choice(["", " ", "\n"])
+            o.append((pad + rng.choice([spell("'", v), spell('"', v), spell_verbatim(v)]) + rng.choice(["", " "]), v))
+        o = list(dict(o).items())
+        hist += [o, list(reversed(o))]
+    with concurrent.futures.ThreadPoolExecutor(max_workers=8) as ex:
+        results = list(ex.map(lambda h: run_eval_history([t for t, _ in h]), hist))
+    reported = False
+    for h, res in zip(hist, results):
+        run.case(("eval-history", tuple(t for t, _ in h)), nontrivial=True)
+        for i, ((t, v), got) in enumerate(zip(h, res)):
+            want = canon_expected(v)
+            if t.strip(" \n") in ("1 + 2", "1+2", "1  +  2", "1 +2"):
+                want = None                                  # not literals: only used as neighbours
+            ok = want is None or got == want
+            run.count("oracle:eval-route:" + ("ok" if ok else "fail"))
+            if not ok and not reported:
+                reported = True
+                small = shrink_history(h, i)
+                res2 = run_eval_history([t for t, _ in small])
+                run.fail("violation", "yaql.eval(text) does not give the value the literal spells after other texts were "
+                                      "evaluated in the same process",
+                         {"eval_history": [[ord(c) for c in t] for t, _ in small], "history_repr": [lc.printable(t) for t, _ in small],
+                          "observed": res2, "required_last": canon_expected(small[-1][1]),
+                          "required": "each yaql.eval(text) denotes what that very text spells (Model/Literals.v reads the same "
+                                      "texts in the correspondence stage)",
+                          "theorems": ["C16_sq_roundtrip", "C16_dq_roundtrip", "C16_verbatim_roundtrip_guarded", "C16_styles_agree"]})
+    run.note("oracle: %d yaql.eval histories in fresh interpreters" % len(hist))
+
+
+def shrink_history(h, i):
+    """[one earlier text, the failing text] if that already fails, else the prefix up to the failing text."""
+    t, v = h[i]
+    for j in range(i):
+        cand = [h[j], h[i]]
+        try:
+            res = run_eval_history([x for x, _ in cand])
+        except Exception:
+            continue
+        if res[-1] != canon_expected(v):
+            return cand
+    return h[:i + 1]
 
 
 # ---------------------------------------------------------------- overlapping parses on one engine
@@ -663,6 +823,10 @@ def replay(run, data):
     d = data["data"]
     if "scenario" in d:
         return not run_scenario(d["scenario"])
+    if "eval_history" in d:
+        texts = ["".join(chr(c) for c in cps) for cps in d["eval_history"]]
+        res = run_eval_history(texts)
+        return res[-1] == d["required_last"]
     if "overlap" in d:
         o = d["overlap"]
         oa, ob = parse_overlapped(o["text"], o["other"], o["before_fetch"])
